@@ -35,7 +35,6 @@ pub use contact::{
 
 // Four-word address encoding (via four-word-networking crate)
 pub use four_word_networking as fourwords;
-use four_word_networking::FourWordAdaptiveEncoder;
 
 use crate::error::BootstrapError;
 use crate::{P2PError, Result};
@@ -94,34 +93,28 @@ impl WordEncoder {
     }
 
     pub fn decode_to_socket_addr(&self, words: &FourWordAddress) -> Result<std::net::SocketAddr> {
-        let encoder = FourWordAdaptiveEncoder::new().map_err(|e| {
-            P2PError::Bootstrap(BootstrapError::InvalidData(
-                format!("Encoder init failed: {e}").into(),
-            ))
-        })?;
-        let normalized = words.0.replace(' ', "-");
-        let decoded = encoder.decode(&normalized).map_err(|e| {
-            P2PError::Bootstrap(BootstrapError::InvalidData(
-                format!("Failed to decode four-word address: {e}").into(),
-            ))
-        })?;
-        decoded.parse::<std::net::SocketAddr>().map_err(|_| {
-            P2PError::Bootstrap(BootstrapError::InvalidData(
-                "Decoded address missing port".to_string().into(),
-            ))
-        })
+        // Same decoding as NetworkAddress (hyphens and spaces both accepted). The
+        // previous normalisation turned spaces into hyphens, a form the four-word
+        // decoder does not split, so no IPv4 address this encoder produced decoded.
+        crate::address::NetworkAddress::from_four_words(&words.0)
+            .map(|addr| addr.socket_addr())
+            .map_err(|e| {
+                P2PError::Bootstrap(BootstrapError::InvalidData(
+                    format!("Failed to decode four-word address: {e}").into(),
+                ))
+            })
     }
 
     pub fn encode_socket_addr(&self, addr: &std::net::SocketAddr) -> Result<FourWordAddress> {
-        let encoder = FourWordAdaptiveEncoder::new().map_err(|e| {
-            P2PError::Bootstrap(BootstrapError::InvalidData(
-                format!("Encoder init failed: {e}").into(),
-            ))
-        })?;
-        let encoded = encoder
-            .encode(&addr.to_string())
-            .map_err(|e| P2PError::Bootstrap(BootstrapError::InvalidData(format!("{e}").into())))?;
-        Ok(FourWordAddress(encoded.replace(' ', "-")))
+        // Only hand out words that decode to the same address again.
+        crate::address::NetworkAddress::from(*addr)
+            .four_words()
+            .map(|words| FourWordAddress(words.to_string()))
+            .ok_or_else(|| {
+                P2PError::Bootstrap(BootstrapError::InvalidData(
+                    format!("Address {addr} has no lossless four-word form").into(),
+                ))
+            })
     }
 }
 
